@@ -26,6 +26,9 @@ CLAIMED = {
  "C14": ("finite abstract interpretation of resolve() and get_color() over representative colour tokens, guard / ordering / def-use rules on registration, cache reset and global re-sync, constant folding of the modifier table",
          "Decides the mechanism of inheritance exhaustively over a finite token domain (own '' / '-' / colour x parent absent / coloured / default, fg and bg, with and without no_color: what reaches ColorFmt, and that '' and '-' never do), first-registration-wins with the explicit configuration first, retry of all pending items with chains resolved from the resolved ancestor outwards, cache reset and synced-palette re-sync on change, no_color => effect-free formatter, lookup fallbacks, and the description grammar tables.",
          "Order-independence over all registration histories as such is NOT decided (it follows from these mechanisms by an induction that is not machine-checked); conflicting duplicate descriptions are outside the property.", "3/C14"),
+ "C10": ("ownership / invalidation rules per cache (who-may-write, dominance, sibling agreement), local type facts on line generators, taint (non-interference) of palette values on layout code",
+         "Turns 'for all histories of renderings and discarded configurations' into rules about caches and about what rendering code may depend on: no identity-keyed long-lived cache without ownership, configuration cache reset on growth, lookup/store agreement incl. the per-class no_color slot, global re-sync of synced palettes, no palette snapshot stored on rendering objects, lazy result guarded on every accessor with iteration delegating to the line generator, whole = newline-join of lines, every line generator yields CHText, and palette values / no_color never reach conditions, len(), comparisons or arithmetic in the rendering modules.",
+         "Character-for-character equality of stripped coloured output and no_color output is NOT compared (it follows from C09's pairing + the non-interference rule, which checks flows, not characters); yields whose type cannot be decided locally are listed in evidence, not judged; the lazy result object itself keeps the palette of the call that created it (by design).", "3/C10"),
 }
 
 NOT_APPLICABLE = {
